@@ -888,7 +888,12 @@ def run_job(spec):
         for i, s in enumerate(specs):
             if i % nshards != shard:
                 continue
+            seen = set()
             for viol in examine(s, workdir, res):
+                base = (viol["observable"].split("@")[0], viol["mode"])
+                if base in seen:
+                    continue  # the same observable at a further parameter point: one witness per spec is enough
+                seen.add(base)
                 plain.append((s, viol))
                 key = (s["kind"], s.get("ftype", s.get("ctype", s.get("mtype", ""))), viol["observable"].split("@")[0], viol["mode"])
                 if key not in done and len(done) < MINIMISE_PER_JOB:
